@@ -10,17 +10,18 @@ from vf.refs import moments as RM
 class Table:
     """err(h) and gamma(h) for every hypothesis of a finite class on a fixed sample."""
 
-    def __init__(self, kind, ds, ratio, eps, hyps):
+    def __init__(self, kind, ds, ratio, eps, hyps, fp=1.0, fn=1.0):
         self.kind, self.ds, self.ratio, self.eps = kind, ds, ratio, eps
+        self.fp, self.fn = float(fp), float(fn)  # costs of the (cost-weighted) error objective
         self.keys = RM.entries(kind, ds.y, ds.g, ds.c)
         self.H = [np.asarray(p, dtype=float) for _, p in hyps]
-        self.err = np.array([RM.error_rate(ds.y, h) for h in self.H])
+        self.err = np.array([RM.error_rate(ds.y, h, self.fp, self.fn) for h in self.H])
         self.G = np.array([[RM.gamma(kind, ds.y, ds.g, h, ratio, ds.c)[k] for k in self.keys] for h in self.H])  # |H| x |keys|
 
     def of(self, pred):
         """(err, gamma vector) of an arbitrary prediction vector."""
         g = RM.gamma(self.kind, self.ds.y, self.ds.g, pred, self.ratio, self.ds.c)
-        return RM.error_rate(self.ds.y, pred), np.array([g[k] for k in self.keys])
+        return RM.error_rate(self.ds.y, pred, self.fp, self.fn), np.array([g[k] for k in self.keys])
 
     def lam_vec(self, lam_by_key):
         return np.array([float(lam_by_key.get(k, 0.0)) for k in self.keys])
